@@ -29,7 +29,10 @@ EXPLANATION = (
     'other condition); R-C02.8 the optimiser\'s per-field bookkeeping '
     '(last_change_mutations) is invalidated when an entry is consumed and '
     'only holds ChangeField mutations, so initial values and null changes are '
-    'never merged into a different field.')
+    'never merged into a different field; R-C02.9 on SQLite only the null-change handler records an '
+    'initial value on a MODIFY COLUMN item (anything else would rewrite '
+    'stored NULLs of a column whose NULL-ability does not change); '
+    'R-C02.10 no declared initial value is used as a truth value (shared with R-C03.8).')
 NOT_DECIDED = (
     'Equality of row contents before/after for all rows and sequences; '
     'behaviour of renames at the SQL level.')
@@ -547,7 +550,69 @@ def r8_optimiser_bookkeeping(ctx):
     r6_consumed_entries_invalidated(ctx, rule_id='R-C02.8')
 
 
+def r9_initial_only_for_null_change(ctx):
+    """On the SQLite path an 'initial' recorded on a MODIFY COLUMN item makes
+    the rebuild select coalesce(old, initial) for that column, i.e. it
+    rewrites stored NULLs.  The property allows that for exactly one kind of
+    change: null -> not null.  So the only producer of a MODIFY COLUMN item
+    with a non-None initial is the null-change handler."""
+    ctx.rule('R-C02.9')
+    p = ctx.program
+    ops = p.cls('db.sqlite3', 'EvolutionOperations')
+    n_calls = n_init = 0
+    for f in ops.methods.values():
+        for c in walk_no_nested(f.node):
+            if isinstance(c, ast.Call) and call_name(c) == '_change_attribute':
+                n_calls += 1
+                init = kwarg(c, 'initial')
+                if init is None and len(c.args) >= 5:
+                    init = c.args[4]
+                if init is None or (isinstance(init, ast.Constant) and
+                                    init.value is None):
+                    ctx.ok(f, 'attribute change carries no initial value', c)
+                    continue
+                n_init += 1
+                if f.name == 'change_column_attr_null':
+                    ctx.ok(f, 'the null-change handler passes the declared '
+                           'initial to the rebuild', c)
+                else:
+                    ctx.finding(f, c, '%s records an initial value (%s) for '
+                                'a column whose NULL-ability does not change: '
+                                'the rebuild would replace the stored NULLs '
+                                'of that column' % (f.name, unparse(init)),
+                                key='initial-outside-null-change')
+            if isinstance(c, ast.Dict):
+                d = {const_str(k): v for k, v in zip(c.keys, c.values)
+                     if k is not None and const_str(k)}
+                op = d.get('op')
+                if op is None or const_str(op) != 'MODIFY COLUMN' or \
+                        'initial' not in d:
+                    continue
+                v = d['initial']
+                if isinstance(v, ast.Constant) and v.value is None:
+                    ctx.ok(f, 'MODIFY COLUMN item without initial', c)
+                elif f.name in ('_change_attribute',
+                                'change_column_attr_null') and \
+                        isinstance(v, ast.Name):
+                    ctx.ok(f, 'MODIFY COLUMN item forwards the initial of '
+                           'the null-change path', c)
+                else:
+                    ctx.finding(f, c, '%s queues a MODIFY COLUMN item with '
+                                'initial=%s outside the null-change path' % (
+                                    f.name, unparse(v)),
+                                key='modify-initial-outside-null-change')
+    ctx.floor('_change_attribute calls in the SQLite backend', n_calls, 3)
+    ctx.floor('attribute changes that carry an initial value', n_init, 1)
+
+
+def r10_initial_sentinel(ctx):
+    from .c03 import r8_initial_sentinel
+    r8_initial_sentinel(ctx, rule_id='R-C02.10')
+
+
 def run(ctx):
+    r10_initial_sentinel(ctx)
+    r9_initial_only_for_null_change(ctx)
     r8_optimiser_bookkeeping(ctx)
     r7_initials_unfiltered(ctx)
     r1_r4_copy_map(ctx)
